@@ -71,7 +71,7 @@ func c17Scalars(ci *refx509.CurveInfo) map[string]*big.Int {
 	return out
 }
 
-var c17RSAFixtures = []string{"RSA-1024-0", "RSA-1024-1", "RSA-1536-0", "RSA-1536-1", "RSA-2048-0", "RSA-2048-1", "RSA-3072-0", "RSA-3072-1", "RSA-4096-0", "RSA-4096-1"}
+var c17RSAFixtures = []string{"RSA-1024-0", "RSA-1024-1", "RSA-1536-0", "RSA-1536-1", "RSA-2048-0", "RSA-2048-1", "RSA-3072-0", "RSA-3072-1", "RSA-4096-0", "RSA-4096-1", "RSA-1023-0", "RSA-1025-0", "RSA-2047-0"}
 
 func c17Enumerate(tier string, yield func(any)) {
 	for i := range refx509.Curves {
